@@ -3,6 +3,7 @@ from .common import *
 from .codewrite import *
 from .lifecycle import *
 
+PER_TARGET = True      # every rule below looks at one target configuration at a time (check.py may fork one worker per target)
 DECIDED = ("ownership pairing: R12.1 the guard built by every install root records exactly (result, requested size) of the allocation made by "
            "the same installation (or (null, 0) where nothing is mapped); R12.2 the guard's destructor releases (self.ptr, self.size) exactly "
            "once on every normal path with a non-null pointer and never with a null one, the guard type is neither Clone nor Copy and is "
